@@ -356,22 +356,40 @@ func zeroOf(k kind) string {
 	return "zero_options"
 }
 
-// isNotSpaceClosure recognises func(gc []rune) bool { return !unicode.IsSpace(gc[0]) }
-func isNotSpaceClosure(e ast.Expr) bool {
-	fl, ok := e.(*ast.FuncLit)
-	if !ok || fl.Type.Params == nil || len(fl.Type.Params.List) != 1 || len(fl.Type.Params.List[0].Names) != 1 {
+// isNotSpaceClosure recognises func(gc []rune) bool { return !unicode.IsSpace(gc[0]) }, written as a
+// function literal or as the name of a package-level function with exactly that body.
+func (f *gemFn) isNotSpaceClosure(e ast.Expr) bool {
+	switch v := e.(type) {
+	case *ast.FuncLit:
+		return isNotSpaceFunc(v.Type, v.Body)
+	case *ast.Ident:
+		if fd, ok := f.unit.decls[v.Name]; ok && fd.Recv == nil && fd.Body != nil {
+			return isNotSpaceFunc(fd.Type, fd.Body)
+		}
+	}
+	return false
+}
+
+func isNotSpaceFunc(ft *ast.FuncType, body *ast.BlockStmt) bool {
+	if ft == nil || ft.Params == nil || len(ft.Params.List) != 1 || len(ft.Params.List[0].Names) != 1 {
 		return false
 	}
-	p := fl.Type.Params.List[0].Names[0].Name
-	if at, ok := fl.Type.Params.List[0].Type.(*ast.ArrayType); !ok || at.Len != nil {
+	p := ft.Params.List[0].Names[0].Name
+	if at, ok := ft.Params.List[0].Type.(*ast.ArrayType); !ok || at.Len != nil {
 		return false
 	} else if id, ok := at.Elt.(*ast.Ident); !ok || id.Name != "rune" {
 		return false
 	}
-	if len(fl.Body.List) != 1 {
+	if ft.Results == nil || len(ft.Results.List) != 1 {
 		return false
 	}
-	ret, ok := fl.Body.List[0].(*ast.ReturnStmt)
+	if id, ok := ft.Results.List[0].Type.(*ast.Ident); !ok || id.Name != "bool" {
+		return false
+	}
+	if len(body.List) != 1 {
+		return false
+	}
+	ret, ok := body.List[0].(*ast.ReturnStmt)
 	if !ok || len(ret.Results) != 1 {
 		return false
 	}
@@ -785,11 +803,11 @@ func (f *gemFn) expr(e ast.Expr) (string, kind) {
 						}
 					}
 				case "IndexFunc":
-					if len(v.Args) == 1 && isNotSpaceClosure(v.Args[0]) {
+					if len(v.Args) == 1 && f.isNotSpaceClosure(v.Args[0]) {
 						return "(gindex_func not_space_cluster " + x + ")", kInt
 					}
 				case "LastIndexFunc":
-					if len(v.Args) == 1 && isNotSpaceClosure(v.Args[0]) {
+					if len(v.Args) == 1 && f.isNotSpaceClosure(v.Args[0]) {
 						return "(glast_index_func not_space_cluster " + x + ")", kInt
 					}
 				}
